@@ -118,6 +118,13 @@ CHECKS = {
           'merging records and translates every copied constituent unconditionally.',
   'note': 'Correctness and type preservation of the resulting schema, and totality of the translations as data, are value-level and not decided. EntityTranslation::SuperposeWith/SubstituteValues themselves are trusted (header-only helpers).',
  },
+ 'C02': {
+  'technique': 'tree-grammar extraction (LALR tables composed with the interpreted semantic actions, witness fixpoint over productions x root kinds) + visitor child-access bounds check under dominating guards, '
+               'dispatch exhaustiveness, variant-tag dataflow for unchecked std::get, accessor-guard dominance rule, loud-refusal fixpoint for the evaluator',
+  'text': 'Decides the structural obligations between checker and evaluator: every child access of the six syntax-tree visitors is within the node for every node kind and arity the parser can build; '
+          'every unchecked std::get<Typification> in the checker reads a typification (a logical global used as an operand made 11 rules throw: fixed); structure accessors are guarded; evaluator refusals log a specific error.',
+  'note': 'NOT decided: that each structure the evaluator dereferences (tuple arity, set-ness) is implied by the typing rule that accepted the expression, nor that the value has the structure of the reported type - these need the typing rules as mathematics.',
+ },
  'C03': {
   'technique': 'whole-program "loud refusal" fixpoint over the auditors\' CFGs (every refusing return is dominated by an error report or is the propagation of a loud callee), '
                'error-position provenance rule, scope pairing path rule, finite-domain evaluation of the value/property rules, of the bound-variable scope functions and of the type algebra '
